@@ -21,9 +21,9 @@
 EXTENDS TypeExpr, ScaleValue, Json, IOUtils
 CONSTANTS Check, DocsOn
 Rec == ndJsonDeserialize(IOEnv.TRACE)
-VARIABLES l, ex, reg
-vars == <<l, ex, reg>>
-Init == l = 1 /\ ex = <<>> /\ reg = <<>>
+VARIABLES l, ex, reg, solo
+vars == <<l, ex, reg, solo>>
+Init == l = 1 /\ ex = <<>> /\ reg = <<>> /\ solo = <<>>
 N == Len(ex)
 HasExpr(c) == \E i \in 1..N : ex[i].e = c
 TidOf(c) == ex[CHOOSE i \in 1..N : ex[i].e = c].tid
@@ -59,19 +59,23 @@ AcceptMatrix(m) ==
     /\ \A i, j \in 1..N : m.pcmp[i][j]                                          \* partial_cmp = Some(cmp)
     /\ \A i, j \in 1..N : m.eq[i][j] => m.heq[i][j]                             \* equal => equal hashes
     /\ \A i, j \in 1..N : (ex[i].decl = ex[j].decl) => ex[i].info = ex[j].info  \* identities are coherent
-AcceptValue(v) == Check = "C04" => DecodesTo(reg.types, reg.ids[v.i + 1], v.bytes, v.tree)
+\* a value must decode from the registry the whole program built AND from the registry that holds this type alone
+AcceptValue(v) == Check = "C04" => /\ DecodesTo(reg.types, reg.ids[v.i + 1], v.bytes, v.tree)
+                                   /\ (solo # <<>> /\ solo.i = v.i) => DecodesTo(solo.types, solo.id, v.bytes, v.tree)
 \* C11 (iii) on real types: the corpus registered in another order gives the same registry up to renaming
 AcceptPerm(e) == Check = "C11" => RegIso(e.types1, e.types2, {<<e.ids1[i], e.ids2[i]>> : i \in 1..Len(e.ids1)})
 Next == /\ l <= Len(Rec)
         /\ LET e == Rec[l] IN
            CASE e.ev = "Expr" -> /\ ex' = (IF e.i = 0 THEN <<>> ELSE ex) \o <<[e |-> e.e, tid |-> e.tid, decl |-> e.decl, info |-> e.info]>>
                                  /\ reg' = IF e.i = 0 THEN <<>> ELSE reg
-             [] e.ev = "Reg" -> AcceptReg(e) /\ reg' = e /\ ex' = ex
-             [] e.ev = "Matrix" -> AcceptMatrix(e) /\ UNCHANGED <<ex, reg>>
-             [] e.ev = "Value" -> AcceptValue(e) /\ UNCHANGED <<ex, reg>>
-             [] e.ev = "Perm" -> AcceptPerm(e) /\ UNCHANGED <<ex, reg>>
-             [] e.ev = "Faithful" -> (Check = "C02" => FaithfulOK(e.nodes, e.types)) /\ UNCHANGED <<ex, reg>>
-             [] e.ev = "Retain" -> UNCHANGED <<ex, reg>>          \* judged by Trace_Retain (C10)
+                                 /\ solo' = IF e.i = 0 THEN <<>> ELSE solo
+             [] e.ev = "Solo" -> solo' = e /\ UNCHANGED <<ex, reg>>
+             [] e.ev = "Reg" -> AcceptReg(e) /\ reg' = e /\ ex' = ex /\ solo' = solo
+             [] e.ev = "Matrix" -> AcceptMatrix(e) /\ UNCHANGED <<ex, reg, solo>>
+             [] e.ev = "Value" -> AcceptValue(e) /\ UNCHANGED <<ex, reg, solo>>
+             [] e.ev = "Perm" -> AcceptPerm(e) /\ UNCHANGED <<ex, reg, solo>>
+             [] e.ev = "Faithful" -> (Check = "C02" => FaithfulOK(e.nodes, e.types)) /\ UNCHANGED <<ex, reg, solo>>
+             [] e.ev = "Retain" -> UNCHANGED <<ex, reg, solo>>          \* judged by Trace_Retain (C10)
         /\ l' = l + 1
 Spec == Init /\ [][Next]_vars
 Track == TLCSet(1, l)
